@@ -174,13 +174,39 @@ func drawSuite(t *rapid.T) suiteSpec {
 var lenBoundaries = []int{0, 1, 7, 8, 9, 10, 11, 19, 20, 21, 31, 32, 33, 63, 64, 65, 127, 128, 129, 140}
 
 func drawBytes(t *rapid.T, n int, label string) []byte {
-	switch rapid.IntRange(0, 3).Draw(t, label+"Fill") {
+	fillText := func(unit string) []byte {
+		b := make([]byte, 0, n)
+		for len(b)+len(unit) <= n {
+			b = append(b, unit...)
+		}
+		for len(b) < n {
+			b = append(b, 'x')
+		}
+		return b
+	}
+	switch rapid.IntRange(0, 11).Draw(t, label+"Fill") {
 	case 0:
 		return make([]byte, n)
 	case 1:
 		b := make([]byte, n)
 		for i := range b {
 			b[i] = 0xff
+		}
+		return b
+	case 2: // decimal digits (what a numeric question looks like before conversion)
+		return fillText("0123456789")
+	case 3: // text with blanks and line breaks at both ends
+		b := fillText("ab ")
+		if n > 0 {
+			b[0], b[n-1] = ' ', '\n'
+		}
+		return b
+	case 4: // valid UTF-8 of multi-byte characters: fewer characters than bytes
+		return fillText(rapid.SampledFrom([]string{"é", "日", "😀", "aé日😀"}).Draw(t, label+"U"))
+	case 5: // random bytes ending in a run of zeros (what right-padding produces)
+		b := rapid.SliceOfN(rapid.Byte(), n, n).Draw(t, label)
+		for i := n - n/3; i < n; i++ {
+			b[i] = 0
 		}
 		return b
 	default:
